@@ -220,7 +220,7 @@ def cases(draw, opts):
     isar = draw(st.integers(0, 4)) == 0
     if isar:
         o = gen.GenOpts(allow_greedy=False, big_sizes=False, min_decls=3, max_decls=10, const_exprs=True,
-                        cpp_full_ok=True)
+                        cpp_full_ok=True, enum_aliases=False)
         lay = draw(multifile.layouts(o, min_files=1, max_files=1))
         variation = draw(st.sampled_from(['hashseed', 'cwd', 'second_call', 'after_other']))
     else:
